@@ -190,6 +190,9 @@ def gen_nodes2(rng, depth, max_depth, max_sibs, budget, top=False):
             out.append(("s", sid, key, rng.choice(ANNOTS), gen_nodes2(rng, depth + 1, max_depth, max_sibs, budget), lead))
         else:
             tr = rng.choice([None, None, None, "trailing note", "x -> y"])
+            if _ZONES[0] and rng.random() < 0.3:
+                out.append(("a", key, gen_zone_z(rng), lead, None))
+                continue
             out.append(("a", key, gen_cval(rng), lead, tr))
     return out
 
@@ -235,6 +238,29 @@ def gen_value4(rng, depth=0):
             items.append(("map", [(rng.choice(["K", "NAME_1", "PATTERN", "REGEX", "ENUM", "x9", "42", "snake_case"]), mv)]))
     return ("list", items)
 
+
+
+ZONE_LINES_Z = ["plain", "K::v", "===END===", "B:", "// not a comment", "``", "`x`", "\tTabbed", "", "trailing  ", "  indented", "A->B | C",
+                "\u00e9 e\u0301", "see NAME{q}", '"""', "---", "\u00a71::X"]
+_ZONES = [False]
+
+
+def gen_zone_z(rng):
+    ml = rng.choice([3, 3, 3, 4, 5])
+    lines = [l for l in (rng.choice(ZONE_LINES_Z) for _ in range(rng.choice([0, 0, 1, 2, 3, 5])))
+             if not l.lstrip(" ").startswith("`" * ml)]
+    return ("zone", "\n".join(lines), rng.choice([None, None, "python", "json", "c++"]), "`" * ml)
+
+
+def runz(ctx, n, have_model):
+    """corez stream (Rt/TokRoundZ.v): core2 documents whose assignments may carry a keyed literal zone at any depth, next to
+    any other node; every document is checked by the extracted corez_shape_check on its emitted text and the zones are
+    compared byte for byte after the implementation's round trip (docprops content comparison)"""
+    _ZONES[0] = True
+    try:
+        return run2(ctx, n, have_model, gen="corez")
+    finally:
+        _ZONES[0] = False
 
 
 def run4(ctx, n, have_model):
@@ -294,7 +320,7 @@ def run2(ctx, n, have_model, gen="core2"):
             ctx.property_failure(dict(case, receipts=[{k: str(v)[:80] for k, v in w.items()} for w in bad[:3]]),
                                  f"{gen} fragment: canonical text produced rewrite receipts")
     if have_model and docs:
-        cmd = {"core3": "core3shape", "core4": "core4shape"}.get(gen, "core2shape")
+        cmd = {"core3": "core3shape", "core4": "core4shape", "corez": "corezshape"}.get(gen, "core2shape")
         res = run_driver("syn", [shape2_line(d, t).replace("core2shape", cmd, 1) for d, t in zip(docs, texts)])
         ctx.count(len(res))
         dom = run_driver("syn", ["domains " + astcodec.enc_doc(d) for d in docs])
@@ -302,6 +328,11 @@ def run2(ctx, n, have_model, gen="core2"):
         for d, t, r, dm in zip(docs, texts, res, dom):
             bits = int(dm) if dm.isdigit() else 0
             indom = bits & need == need
+            if gen == "corez":
+                inz = not r.startswith("X")
+                r = r.lstrip("X")
+                ctx.hist("corez_shape_check", ("corez:" if inz else "outside corez:") + {"0": "not-corez", "1": "shape-ok", "2": "mismatch", "3": "LEXERR"}.get(r, r))
+                continue
             if gen == "core4":
                 # D = in the domain of C02_text_roundtrip_core4 (core4_doc && lex_safe4_doc): the shape check must be 1
                 # (C02_shape_check_core4_complete); no prefix = core4 but outside lex_safe4; X = outside core4
